@@ -12,6 +12,8 @@ R4.5  optional => omitted when None: required parameters use the plain entry, op
 R4.6  one sanitizer for URL holes and signature names
 R4.12 the path template reaches the URL unchanged apart from placeholder renaming (no strip / replace / case change / inserted text)
 R4.13 the overload implementation selects a media type's branch by the presence of that media type's body argument
+R4.14 the None-stripping pass of the body serialiser never drops an element of a list (only dict keys with a None value)
+R4.15 hook registration descends into every field of a body model (no field is skipped by name)                          [= R16.7]
 R4.10 an object occurring twice in a body is serialised twice (visited set = recursion stack)   [= R16.2 bookkeeping instance]
 R4.11 the transport forwards json/data/files/params unchanged, also when they are empty/falsy      [= R17.3]
 R4.9  a supplied header parameter reaches the wire with the caller's value: in the bundled transport per-request
@@ -227,6 +229,14 @@ def run(repo: Repo, rep: Report, tier: str) -> None:
     _reuse4(repo, rep, "c16", {"R16.2": "R4.10"}, only=lambda subj: "visited bookkeeping" in subj)
     # R4.11: the transport forwards every caller kwarg except headers unchanged (an empty list / dict body is still a body)
     _reuse4(repo, rep, "c17", {"R17.3": "R4.11"})
+    rule_array_elements_kept(repo, rep, "R4.14")
+    # R4.15: the unstructure hooks (wire-key renaming) are registered for the type of *every* field of a body model, private storage of the
+    # generated map wrappers included                                                                                   [= R16.7]
+    from rules import _converter as _cv415
+
+    from rules._reuse import _Filter as _F415
+
+    _cv415.rule_recursive_registration(repo, _F415(rep, {"R4.15": "R4.15"}, only=lambda subj: "unstructure" in subj), "R4.15")  # the encoding side only
     # ---------------------------------------------------------------- R4.8 body dispatch
     grc = rg.classes["EndpointRequestGenerator"].methods.get("generate_request_call")
     if grc is None:
@@ -468,3 +478,64 @@ def rule_body_argument_selects_branch(repo: Repo, rep, rule: str = "R4.13") -> N
             else:
                 rep.ok(rule, sub, "dispatch on content_type; the implementation signature gives content_type no constant default", fn.loc(conds[0][0]))
     rep.require(n >= 1, f"{rule}: the per-media-type dispatch of the overload implementation was not found (anchor)")
+
+
+# ------------------------------------------------------------------------------------------------ R4.14 array elements of a body are never filtered out
+_R414_EXAMPLE = '''
+def _remove_none_values(obj):
+    if isinstance(obj, dict):
+        return {k: _remove_none_values(v) for k, v in obj.items() if v is not None}
+    elif isinstance(obj, list):
+        return [_remove_none_values(item) for item in obj if item is not None]
+    return obj
+'''
+
+
+def _list_filters(fn_node: ast.AST, p: str):
+    """Comprehensions / loops over the list parameter that leave elements out (an `if` clause of the comprehension, an append guarded by a
+    test on the element, a `continue` under such a test).  Dict comprehensions (keys with a None value) are not elements of an array."""
+    out = []
+    for n in ast.walk(fn_node):
+        if isinstance(n, (ast.ListComp, ast.GeneratorExp)):
+            for g in n.generators:
+                if isinstance(g.iter, ast.Name) and g.iter.id == p and g.ifs:
+                    out.append(n)
+        if isinstance(n, ast.Call) and isinstance(n.func, ast.Name) and n.func.id == "filter" and len(n.args) == 2 and isinstance(n.args[1], ast.Name) and n.args[1].id == p:
+            out.append(n)
+        if isinstance(n, ast.For) and isinstance(n.iter, ast.Name) and n.iter.id == p and isinstance(n.target, ast.Name):
+            v = n.target.id
+            for st in ast.walk(n):
+                if isinstance(st, ast.If) and any(isinstance(x, ast.Name) and x.id == v for x in ast.walk(st.test)) and (
+                        any(isinstance(b, ast.Continue) for b in st.body) or any(isinstance(c, ast.Call) and isinstance(c.func, ast.Attribute) and c.func.attr == "append"
+                                                                                   for b in st.body for c in ast.walk(b))):
+                    out.append(st)
+    return out
+
+
+def rule_array_elements_kept(repo: Repo, rep, rule: str = "R4.14") -> None:
+    """The None-stripping pass of the body serialiser removes *keys* whose value is None (an omitted optional field).  An array element is
+    data the caller supplied at a position: dropping the None elements of a list changes the array that is sent (`[20.5, None, 21.0]` ->
+    `[20.5, 21.0]`, later elements shift)."""
+    hz = _list_filters(ast.parse(_R414_EXAMPLE), "obj")
+    rep.require(len(hz) == 1, f"{rule}: the built-in positive example is no longer recognised - the rule is broken")
+    utils = repo.module("core.utils")
+    ds = utils.classes.get("DataclassSerializer")
+    fn = ds.methods.get("_remove_none_values") if ds is not None else None
+    if fn is None:
+        raise AnalysisError("anchor vanished: DataclassSerializer._remove_none_values")
+    from sa.resolve import follow_delegation
+
+    fn = follow_delegation(repo, fn) or fn
+    ps = [a for a in fn.params if a not in ("self", "cls")]
+    if not ps:
+        raise AnalysisError(f"{rule}: _remove_none_values has no value parameter (anchor)")
+    has_list = any(isinstance(c, ast.Call) and dotted(c.func) == "isinstance" and len(c.args) == 2 and "list" in norm(c.args[1]) for c in ast.walk(fn.node))
+    rep.require(has_list, f"{rule}: no `isinstance(<obj>, list)` branch in {fn.qualname} (anchor)")
+    hz = _list_filters(fn.node, ps[0])
+    sub = f"{utils.relpath}:{fn.qualname} list branch"
+    if hz:
+        rep.violation(rule, sub, f"{fn.fq}|array-elements-filtered",
+                      f"`{norm(hz[0])[:80]}` leaves elements of an array out: a `None` the caller put into a list of a request body is dropped and the elements after it "
+                      "move up - the body on the wire is not the serialised argument", fn.loc(hz[0]))
+    else:
+        rep.ok(rule, sub, "every element of a list is kept (only dict keys with a None value are removed)", fn.loc())
